@@ -115,7 +115,7 @@ def _r1(ck: Checker, prog: Program):
             ck.violation("C01.R1", f.qualname, "parameters", f"parameters are {f.params}; callers pass (ns, ew, settings)", loc=f.loc())
             continue
         T = Translator(env={"ns": a, "ew": b})
-        forward_substitute([st for st in f.node.body if isinstance(st, ast.Assign)], T)
+        forward_substitute([st for st in f.node.body if isinstance(st, (ast.Assign, ast.AugAssign))], T)
         rets = [r for r in own_nodes(f.node) if isinstance(r, ast.Return)]
         if len(rets) != 1:
             ck.violation("C01.R1", f.qualname, "single return", f"{len(rets)} return statements", loc=f.loc())
@@ -136,7 +136,7 @@ def _r1_projection(ck: Checker, prog: Program):
         ck.violation("C01.R1", f.qualname, "parameters", f"parameters are {f.params}; callers pass (ns, ew, azimuth)", loc=f.loc())
         return
     T = Translator(env={"ns": a, "ew": b, f.params[2]: t})
-    forward_substitute([st for st in f.node.body if isinstance(st, ast.Assign)], T)
+    forward_substitute([st for st in f.node.body if isinstance(st, (ast.Assign, ast.AugAssign))], T)
     rets = [r for r in own_nodes(f.node) if isinstance(r, ast.Return)]
     if len(rets) != 1:
         ck.violation("C01.R1", f.qualname, "single return", f"{len(rets)} return statements", loc=f.loc())
